@@ -21,6 +21,7 @@ CONSTANTS
   UseBuild = FALSE
   NChanges = {1}
   QuietW2 = FALSE
+  UseFarTtl = FALSE
   UseDiverge = FALSE
   UseAdv = FALSE
   Scen = {1, 2, 3, 4, 5, 6, 7, 8}
